@@ -4,6 +4,8 @@ caller) and writes the list of observations."""
 import json
 import sys
 
+BIG_FRAME_FROM = 8       # steps
+
 
 def main(argv):
     inp, outp = argv
@@ -11,7 +13,12 @@ def main(argv):
         job = json.load(f)
     from lv import core
     from lv.props import c13_lib
-    res = core.deep_call(c13_lib.run_steps, job['pool'], job['steps'])
+    # core.deep_call's big-frame trampoline costs seconds to build per process and pays
+    # off only for long jobs (the batches); replays of a few steps call directly
+    if len(job['steps']) > BIG_FRAME_FROM:
+        res = core.deep_call(c13_lib.run_steps, job['pool'], job['steps'])
+    else:
+        res = c13_lib.run_steps(job['pool'], job['steps'])
     with open(outp, 'w') as f:
         json.dump(res, f)
 
